@@ -1,5 +1,5 @@
 (* C10 - Receive Maximum is never exceeded; the send quota neither leaks nor overflows. *)
-From Poster Require Import Model.Sim Proofs.BytesP Proofs.ClientP Proofs.QuotaP Proofs.HandshakeP Proofs.SimInvP Proofs.SettleP Proofs.RefineP Proofs.OwnP Proofs.TraceP.
+From Poster Require Import Proofs.IndepP Model.Sim Proofs.BytesP Proofs.ClientP Proofs.QuotaP Proofs.HandshakeP Proofs.SimInvP Proofs.SettleP Proofs.RefineP Proofs.OwnP Proofs.TraceP.
 
 (* unconditional, any broker: 0 <= quota <= Receive Maximum is preserved by every handler, so
    the u16 quota can neither underflow nor grow beyond R *)
@@ -95,3 +95,10 @@ Theorem C10_after_poll : forall (s : sys) (g : list key) (s' : sys) (g' : list k
   quota (c (settle s)) + lenN g' = rmax (c (settle s)) /\ rmax (c (settle s)) = rmax (c s) /\ lenN g' <= rmax (c s).
 Proof. exact quota_after_poll. Qed.
 Print Assumptions C10_after_poll.
+
+(* a PUBREC that accepts the message - any reason below 0x80, 0x10 "no matching subscribers" included - is not a
+   completion: the slot stays taken until the PUBCOMP *)
+Theorem C10_pubrec_success_keeps_slot : forall (s : sys) (p : rxpkt), rk p = KPubrec -> r_reason p < 128 ->
+  quota (c (fst (handle_packet s p))) = quota (c s) /\ rmax (c (fst (handle_packet s p))) = rmax (c s).
+Proof. exact pubrec_success_keeps_slot. Qed.
+Print Assumptions C10_pubrec_success_keeps_slot.
